@@ -156,6 +156,23 @@ Theorem C12_no_panic_store :
   forall o t' fs' es, execute_st hash hash_eqb HS f t fs = (o, t', fs', es) -> o <> SExec OPanic.
 Proof. exact (C12_no_panic_st_lemma hash hash_eqb HS hash_eqb_spec). Qed.
 
+(** 9. The whole command, `atlas migrate apply` ([cli_apply] = migrateApplyRun from
+    Pending on: two ReadRevisions, then the file loop), on a one-file directory
+    whose partially applied file had its applied part edited: for every fault
+    stream (lookups, listings, upserts), both transaction modes, every executor
+    configuration and count argument, nothing is executed or committed, the table
+    is what it was, and the command does not report success. *)
+Theorem C12_refuse_cli_apply :
+  forall (txfile : bool) (c : PendingModel.cfg) (n : nat) (fs : list bool) (f : file) (r : rev hash) (old : list bytes),
+  f_ckpt f = false -> r_version r = f_version f -> r_applied r <> r_total r ->
+  0 < r_applied r -> recorded hash HS r old ->
+  firstn (r_applied r) (f_stmts f) <> firstn (r_applied r) old ->
+  forall o t' fs' es j, cli_apply hash hash_eqb HS txfile c n [f] [r] fs = (o, t', fs', es, j) ->
+  collision_at hash HS old (f_stmts f) (r_applied r) \/
+  (exec_events es = [] /\ j = [] /\ t' = [r] /\
+   o <> CRun (SExec ODone) /\ o <> CPend PendingModel.PNoPending).
+Proof. exact (C12_refuse_cli_lemma hash hash_eqb HS hash_eqb_spec). Qed.
+
 End C12.
 
 Print Assumptions C12_refuse.
@@ -168,6 +185,7 @@ Print Assumptions C12_refuse_any_storage_fault.
 Print Assumptions C12_refuse_stops_apply.
 Print Assumptions C12_tail_edit_resumes_store.
 Print Assumptions C12_no_panic_store.
+Print Assumptions C12_refuse_cli_apply.
 
 (** Non-vacuity: a concrete table/file meeting the hypotheses of 1 and 3,
     with [HS] the identity on byte strings (a legitimate instance). *)
@@ -231,6 +249,14 @@ Example C12_tail_store_nonvacuous :
   fst (fst (fst (execute_st bytes bytes_eqb ex_HS ex_file_tail [ex_rev] []))) = SExec ODone /\
   snd (apply_files bytes bytes_eqb ex_HS false [ex_file_tail; ex_file2] [ex_rev] []) =
     [([49%N], [68%N]); ([49%N], [69%N]); ([50%N], [90%N])].
+Proof. vm_compute. auto. Qed.
+
+Example C12_refuse_cli_apply_nonvacuous :
+  let c := PendingModel.mkCfg PendingModel.Linear None true true in
+  cli_apply bytes bytes_eqb ex_HS false c 0 [ex_file_changed] [ex_rev] [] =
+    (CRun (SExec (OHistory 2)), [ex_rev], [], [EWrite ex_rev true; EWrite ex_rev true], []) /\
+  fst (fst (fst (fst (cli_apply bytes bytes_eqb ex_HS true c 0 [ex_file_changed] [ex_rev] [false; false; true])))) = CRun SReadErr /\
+  fst (fst (fst (fst (cli_apply bytes bytes_eqb ex_HS true c 0 [ex_file_tail] [ex_rev] [])))) = CRun (SExec ODone).
 Proof. vm_compute. auto. Qed.
 
 (** Clause (a) is needed. With a store that reports a failing lookup as
